@@ -117,7 +117,7 @@ def paths_of(ops) -> List[str]:
     for op, pairs in zip(ops, gp):
         k = op[0]
         ps = []
-        if k in ("pack", "set", "write", "del"):
+        if k in ("pack", "set", "write", "del", "xcreate", "xwrite"):
             ps = [op[1]]
         elif k in ("copy", "move"):
             ps = [op[1], op[2]]
@@ -303,6 +303,162 @@ def marker_histories() -> List[List[Any]]:
     return H
 
 
+# ---- every public way to get a value stored, with every spelling h5py coerces to the marker
+#
+#   ["xcreate", p, how, form]      how: setitem | create | create-shape | create-dtype | create-dtype-shape | require
+#   ["xwrite", p, key, form]       in-place assignment to the one-byte opaque dataset p; key: () | ...
+#   ["xattr", p, name, how, form]  attribute of node p; how: setitem | create | create-dtype | modify
+# Whether such an operation would store the marker is decided by h5py itself: the same call on
+# a scratch in-memory plain HDF5 file (reference oracle), never by re-implementing the coercion.
+
+FORMS = ["V", "A0", "A1", "S", "NB", "U8", "I", "BA", "MV", "V2", "REC", "LST", "A0u8", "A0S"]
+XCREATE = ["setitem", "create", "create-shape", "create-dtype", "create-dtype-shape", "require"]
+XWRITE = ["()", "..."]
+XATTR = ["setitem", "create", "create-dtype", "modify"]
+NO_DTYPE = {"setitem", "create", "modify"}       # the value alone decides what is stored
+
+
+def _spell(form: str):
+    import numpy as np
+    return {
+        "V": lambda: np.void(MARK), "A0": lambda: np.array(MARK, dtype="V1"), "A1": lambda: np.array([MARK], dtype="V1"),
+        "S": lambda: MARK, "NB": lambda: np.bytes_(MARK), "U8": lambda: np.uint8(127), "I": lambda: 127,
+        "BA": lambda: bytearray(MARK), "MV": lambda: memoryview(MARK), "V2": lambda: np.void(MARK + b"\x00"),
+        "REC": lambda: np.array([(127,)], dtype=[("a", "u1")])[0], "LST": lambda: [MARK],
+        "A0u8": lambda: np.array(127, dtype="u1"), "A0S": lambda: np.array(MARK, dtype="S1"),
+    }[form]()
+
+
+def _x_apply(root, op, target=None):
+    """Perform an x-operation through the h5py-like API of `root` (container or plain file)."""
+    k = op[0]
+    if k == "xcreate":
+        _, p, how, form = op
+        v = _spell(form)
+        if how == "setitem":
+            root[p] = v
+        elif how == "create":
+            root.create_dataset(p, data=v)
+        elif how == "create-shape":
+            root.create_dataset(p, shape=(), data=v)
+        elif how == "create-dtype":
+            root.create_dataset(p, dtype="V1", data=v)
+        elif how == "create-dtype-shape":
+            root.create_dataset(p, shape=(), dtype="V1", data=v)
+        elif how == "require":
+            root.require_dataset(p, shape=(), dtype="V1", data=v)
+    elif k == "xwrite":
+        _, p, key, form = op
+        root[p][() if key == "()" else Ellipsis] = _spell(form)
+    elif k == "xattr":
+        _, p, name, how, form = op
+        at = root[p].attrs
+        if how != "setitem" and not hasattr(at, "create" if how != "modify" else "modify"):
+            raise NotImplementedError(how)
+        v = _spell(form)
+        if how == "setitem":
+            at[name] = v
+        elif how == "create":
+            at.create(name, v)
+        elif how == "create-dtype":
+            at.create(name, v, shape=(), dtype="V1")
+        elif how == "modify":
+            at.modify(name, v)
+
+
+_REF: Dict[Any, str] = {}
+
+
+def ref_outcome(op) -> str:
+    """MARK / other / exc: what plain h5py stores for this call (scratch file in memory)."""
+    import h5py
+    import numpy as np
+    key = tuple(op)
+    if key in _REF:
+        return _REF[key]
+    out = "other"
+    with h5py.File(f"ref{len(_REF)}", "w", driver="core", backing_store=False) as f:
+        p = op[1]
+        if op[0] == "xwrite":
+            f[p] = np.void(b"z")
+        elif op[0] == "xattr":
+            f[p] = np.void(b"z")
+            if op[3] == "modify":
+                f[p].attrs[op[2]] = np.void(b"q")
+        try:
+            _x_apply(f, op)
+            got = f[p].attrs[op[2]] if op[0] == "xattr" else f[p][()]
+            if isinstance(got, np.void) and got.tobytes() == MARK:
+                out = "MARK"
+        except Exception:  # noqa: BLE001
+            out = "exc"
+    _REF[key] = out
+    return out
+
+
+def x_via(op) -> str:
+    """Root cause class of an accepted marker: spelled differently / explicit dtype or shape / in place."""
+    if op[0] == "xwrite":
+        return "write"
+    how = op[2] if op[0] == "xcreate" else op[3]
+    return "set-A0" if how in NO_DTYPE else "create-dtype"
+
+
+def exotic_histories() -> List[List[Any]]:
+    """All (entry point, spelling) pairs for which plain h5py stores the marker, in a base
+    container, in a patch and in a merged record.  Judged by the oracle only (the model's values
+    are byte strings, not numpy spellings)."""
+    xs: List[Any] = []
+    n = 0
+    for form in FORMS:
+        for how in XCREATE:
+            n += 1
+            xs.append(["xcreate", f"n{n}", how, form])
+        for key in XWRITE:
+            n += 1
+            xs.append(["set", f"w{n}", "V", b"z"])
+            xs.append(["xwrite", f"w{n}", key, form])
+        for how in XATTR:
+            n += 1
+            if how == "modify":
+                xs.append(["xattr0", "g", f"k{n}"])
+            xs.append(["xattr", "g", f"k{n}", how, form])
+    keep = []
+    for i, op in enumerate(xs):
+        if op[0] in ("set", "xattr0"):
+            nxt = xs[i + 1]
+            if ref_outcome(nxt) == "MARK":
+                keep.append(op)
+        elif ref_outcome(op) == "MARK":
+            keep.append(op)
+    # one history per root-cause class, so that each class is judged (the oracle stops at the first failure)
+    groups: Dict[str, List[Any]] = {"set-A0": [], "create-dtype": [], "write": []}
+    for i, op in enumerate(keep):
+        if op[0] in ("set", "xattr0"):
+            groups[x_via(keep[i + 1])].append(op)
+        else:
+            groups[x_via(op)].append(op)
+    H = []
+    for pre in ([], [["bnd"]], [["bnd"], ["merge"]]):
+        for ops in groups.values():
+            H.append([["pack", "keep", b"k"]] + pre + [["pack", "g", b"z"]] + ops + [["copy", "keep", "keep2"], ["bnd"]])
+    return H
+
+
+def form_table(cases, results) -> Dict[str, Any]:
+    """Outcome of every marker-producing (entry point, spelling) pair on the IH5 drivers."""
+    stored, refused, na = set(), set(), set()
+    for (drv, ops), r in zip(cases, results):
+        if drv == "h5":
+            continue
+        for op, st in zip(ops, r["steps"]):
+            if op[0] in ("xcreate", "xwrite", "xattr") and ref_outcome(op) == "MARK":
+                key = op[0] + ":" + "/".join(op[2:] if op[0] != "xattr" else op[3:])
+                (stored if st[0] == "T" else na if st[0] == "N" else refused).add(key)
+    return {"pairs": len(stored | refused | na), "refused": len(refused - stored), "not_offered_by_ih5": sorted(na),
+            "stored": sorted(stored)}
+
+
 # ---------------------------------------------------------------------------- model side
 
 def model_ops(ops, driver: str) -> Tuple[List[Any], List[Tuple[int, int]]]:
@@ -417,6 +573,11 @@ class _Run:
             c[op[1]] = _value(op[2], op[3])
         elif k == "write":
             c[op[1]][()] = _value(op[2], op[3])
+        elif k in ("xcreate", "xwrite", "xattr"):
+            _x_apply(c, op)
+        elif k == "xattr0":
+            import numpy as np
+            c[op[1]].attrs[op[2]] = np.void(b"q")
         elif k == "del":
             del c[op[1]]
         elif k in ("copy", "gcopy"):
@@ -476,6 +637,11 @@ def _is_marker_attempt(op, prev_obs: Dict[str, Any]) -> bool:
     if k == "write":
         cur = prev_obs.get(op[1])
         return op[3] == MARK and bool(cur) and cur[0] == "V" and len(cur[1]) == 1
+    if k in ("xcreate", "xattr"):
+        return ref_outcome(op) == "MARK"
+    if k == "xwrite":
+        cur = prev_obs.get(op[1])
+        return ref_outcome(op) == "MARK" and bool(cur) and cur[0] == "V" and len(cur[1]) == 1
     return False
 
 
@@ -503,6 +669,8 @@ def impl_run(case) -> Dict[str, Any]:
                         try:
                             run.apply(op, i)
                             res = "T"
+                        except NotImplementedError as e:
+                            res, err = "N", f"entry point not offered by this driver: {e}"
                         except REFUSALS as e:
                             res, err = "F", f"{type(e).__name__}: {e}"[:160]
                         except vlib.CaseTimeout:
@@ -549,13 +717,16 @@ def oracle(case, result) -> Optional[Dict[str, Any]]:
                 return None        # CPU contention is not a property violation; the case is re-run alone by the caller
             return {"step": i, "kind": "unusable", "what": f"container unusable: {err}"}
         k = op[0]
-        attempt = _is_marker_attempt(op, prev)
+        attempt = _is_marker_attempt(op, prev) and res != "N"
         if attempt:
             if driver != "h5" and res == "T":
                 node = dict(zip(paths, obs)).get(op[1])
-                return {"step": i, "kind": "marker-stored", "via": k if k != "set" else f"set-{op[2]}",
-                        "what": f"the deletion marker value was accepted by {k} ({op[2] if k != 'pack' else 'pack_file'}) on {driver} "
-                                f"instead of being rejected; the node now reads {'ABSENT' if not node else node[:2]}"}
+                via = x_via(op) if k[0] == "x" else (k if k != "set" else f"set-{op[2]}")
+                how = "pack_file" if k == "pack" else "/".join(str(x) for x in op[2:] if not isinstance(x, bytes))
+                return {"step": i, "kind": "marker-stored", "via": via,
+                        "what": f"the deletion marker value was accepted by {k} ({how}) on {driver} "
+                                f"instead of being rejected; " + ("the attribute is gone" if k == "xattr" else
+                                                                  f"the node now reads {'ABSENT' if not node else node[:2]}")}
             if res != "T" and mk and not mk["raw_unchanged"]:
                 return {"step": i, "kind": "marker-refusal-changed-state", "via": k,
                         "what": f"{k} of the marker value raised ({err}) but the raw content of the container files changed"}
@@ -573,8 +744,8 @@ def oracle(case, result) -> Optional[Dict[str, Any]]:
                     labels[op[1]] = (op[3], False, old[2] if old else "V")
                 else:
                     labels.pop(op[1], None)     # h5py pads/truncates to the dataset's size: outside the property
-            elif k == "del":
-                labels.pop(op[1], None)
+            elif k in ("del", "xwrite", "xcreate"):
+                labels.pop(op[1], None)     # x-operations: the stored value is h5py's business, nothing is claimed
             elif k == "copy":
                 if op[1] in labels:
                     labels[op[2]] = labels[op[1]]
@@ -696,6 +867,11 @@ def shrink(case, bad):
     def still(sub):
         b = fails((driver, sub))
         return b is not None and b["kind"] == kind
+    i = bad.get("step", len(ops) - 1)
+    packs = [o for o in ops[:i] if o[0] == "pack" and o != ANCHOR]
+    for cand in ([ops[i]], ops[max(0, i - 1):i + 1], packs + [ops[i]], packs + ops[max(0, i - 1):i + 1]):
+        if len(cand) < len(ops) and still(cand):       # the failing step with its obvious prerequisites
+            return (driver, vlib.ddmin(list(cand), still, budget=10))
     small = vlib.ddmin(list(ops), still, budget=40)
     return (driver, small)
 
@@ -748,6 +924,9 @@ def run(ctx: vlib.Ctx):
             cases += [(drv, h) for drv in drvs]
     for h in marker_histories():
         cases += [(drv, [list(ANCHOR)] + h) for drv in DRIVERS]
+    first_x = len(cases)          # from here on: oracle only, no model
+    for h in exotic_histories():
+        cases += [(drv, [list(ANCHOR)] + h) for drv in DRIVERS]
     hist = [h for _, h in cases]
     import time as _t
     t0 = _t.time()
@@ -762,8 +941,8 @@ def run(ctx: vlib.Ctx):
     evals += len(cases)
 
     mcases, lasts = [], []
-    for drv, h in cases:
-        mo, last = model_ops(h, drv)
+    for ci, (drv, h) in enumerate(cases):
+        mo, last = model_ops(h if ci < first_x else [], drv)
         big = sum(len(x) for o in h for x in o if isinstance(x, bytes)) > 6000
         mcases.append(["hist", False, not big, paths_of(h), mo])
         lasts.append(last)
@@ -781,7 +960,7 @@ def run(ctx: vlib.Ctx):
     vlib.log(f"c17: crosscheck done {_t.time() - t0:.1f}s")
     reported = set()
     nontrivial = set()
-    for case, res, mr, last in zip(cases, results, mres, lasts):
+    for ci, (case, res, mr, last) in enumerate(zip(cases, results, mres, lasts)):
         bad = oracle(case, res)
         if bad is not None:
             small = shrink(case, bad)
@@ -792,7 +971,7 @@ def run(ctx: vlib.Ctx):
                 reported.add(key)
                 ctx.violation(f"[{small[0]}] {bad2['what']}  (history: {[_op_show(o) for o in small[1]]})",
                               {"kind": "history", "fail": bad2, **case_to_json(small)}, sig_obj=sig)
-        d = compare(case, res, mr, last)
+        d = compare(case, res, mr, last) if ci < first_x else None
         if d is not None and len(disagreements) < 40:
             disagreements.append({"kind": "history", "driver": case[0], "ops": [_op_show(o) for o in case[1]], **d})
         drv, h = case
@@ -818,6 +997,7 @@ def run(ctx: vlib.Ctx):
         "marker_attempts_refused_ih5": sum(1 for (d, h), r in zip(cases, results) if d != "h5" for s in r["steps"] if s[3] is not None and s[0] == "F"),
         "refused_steps_impl": sum(1 for r in results for s in r["steps"] if s[0] == "F"),
     }
+    cov["marker_forms"] = form_table(cases, results)
     cov["coq_crosscheck"] = xc
     cov["disagreements"] = len(disagreements)
     ctx.assumptions += [
